@@ -74,6 +74,92 @@ pub fn reduce(text: &str, keep: &mut dyn FnMut(&str) -> bool, max_tests: usize) 
             chunk /= 2;
         }
     }
+    // phase 1b: remove any self-balanced line range (a statement, a whole block, an
+    // `else` arm together with its body …), longest first, until nothing more goes.
+    let mut progress = true;
+    while progress && tests < max_tests {
+        progress = false;
+        let mut i = 0;
+        while i < lines.len() && tests < max_tests {
+            let prot = protected(&lines);
+            if prot[i] {
+                i += 1;
+                continue;
+            }
+            let mut removed = false;
+            let jmax = (i + 80).min(lines.len() - 1);
+            let mut tried_plain = false;
+            for j in i..=jmax {
+                if prot[i..=j].iter().any(|x| *x) {
+                    break;
+                }
+                if tried_plain {
+                    break;
+                }
+                let seg = lines[i..=j].join("\n");
+                // the removed range must be balanced on its own, or be an
+                // "} else … {" arm: starts with '}' and ends with '{' at equal depth
+                let arm = lines[i].trim_start().starts_with('}') && lines[j].trim_end().ends_with('{');
+                let ok = if arm {
+                    let inner = if j > i { lines[i + 1..j].join("\n") } else { String::new() };
+                    balanced(&inner) && lines[j + 1..].first().is_some()
+                } else {
+                    balanced(&seg)
+                };
+                if !ok {
+                    continue;
+                }
+                // only the shortest balanced range starting at i is tried
+                tried_plain = true;
+                let mut cand = lines.clone();
+                if arm {
+                    // drop the arm header and its body, keep the closing brace that follows
+                    let mut depth = 0i64;
+                    let mut k = j + 1;
+                    while k < cand.len() {
+                        for c in cand[k].chars() {
+                            match c {
+                                '{' => depth += 1,
+                                '}' => depth -= 1,
+                                _ => {}
+                            }
+                        }
+                        if depth < 0 {
+                            break;
+                        }
+                        k += 1;
+                    }
+                    if k >= cand.len() {
+                        continue;
+                    }
+                    // cand[k] closes the arm: remove [i, k) and keep cand[k] if it is a bare "}"
+                    if cand[k].trim() != "}" {
+                        continue;
+                    }
+                    cand.drain(i..k);
+                } else {
+                    cand.drain(i..=j);
+                }
+                let t = cand.join("\n") + "\n";
+                if !balanced(&t) {
+                    continue;
+                }
+                tests += 1;
+                if keep(&t) {
+                    lines = cand;
+                    progress = true;
+                    removed = true;
+                    break;
+                }
+                if tests >= max_tests {
+                    break;
+                }
+            }
+            if !removed {
+                i += 1;
+            }
+        }
+    }
     // phase 2: replace parenthesised groups by something smaller
     let mut text = lines.join("\n") + "\n";
     let mut changed = true;
